@@ -554,7 +554,7 @@ theorem roundUp_mod (n sz : Nat) (h : sz ≠ 0) : roundUp n sz % sz = 0 := by
 def DetachPost (s : State) (h : Nat) (x : Buf) (n : Nat) (s2 : State) (nb : Nat) : Prop :=
   Inv s2 ∧ s2.hs.length = s.hs.length ∧ (∀ h', h' ≠ h → s2.abs h' = s.abs h') ∧ s2.handle h = some nb ∧
   ∃ z, s2.buf? nb = some z ∧ z.ref = 1 ∧ z.immutable = false ∧ n ≤ z.size ∧ z.traits = x.traits ∧
-       ∃ k, n ≤ k ∧ z.content = x.content.take k
+       ∃ k, n ≤ k ∧ z.content = x.content.take k ∧ (k < x.used → x.immutable = true ∧ x.ref < 2)
 
 theorem fresh_not_immutable (len f : Nat) (t : Option Traits) (d : List Byte) (u : Nat) :
     Buf.immutable { State.fresh len (f - f % 2) t with data := d, used := u } = false := by
@@ -715,7 +715,7 @@ theorem detach_copy_ok {s : State} (inv : Inv s) {h b : Nat} {x : Buf} (hh : s.h
     (by rw [← hz]; exact hp)
     (by rw [← hz]; show x.content.length % esize x.traits = 0
         rw [content_length x hu]; exact inv.aligned b x hb)
-  refine ⟨ret.1, by simp [copyState], ret.2.2.2, ret.2.1, z, ?_, by rw [← hz]; rfl, ?_, ?_, by rw [← hz]; rfl, max n x.used, by omega, ?_⟩
+  refine ⟨ret.1, by simp [copyState], ret.2.2.2, ret.2.1, z, ?_, by rw [← hz]; rfl, ?_, ?_, by rw [← hz]; rfl, max n x.used, by omega, ?_, fun c => by omega⟩
   · rw [State.buf?_setHandle, State.buf?_setBuf _ _ _ _ (by omega)]; simp
   · rw [← hz]; exact fresh_not_immutable _ _ _ _ _
   · rw [zsize]; have := le_allocSize len; omega
@@ -725,7 +725,7 @@ theorem detach_copy_ok {s : State} (inv : Inv s) {h b : Nat} {x : Buf} (hh : s.h
 
 theorem detach_move {s : State} (inv : Inv s) {h b : Nat} {x : Buf} (hh : s.handle h = some b)
     (hb : s.buf? b = some x) (uniq : ¬ 2 ≤ x.ref) (n len : Nat) (nlen : n ≤ len)
-    (lal : len % esize x.traits = 0) :
+    (lal : len % esize x.traits = 0) (trunc : len < x.used → x.immutable = true) :
     DetachSem s h x n (detachMove (s.newBuf len (x.flags - x.flags % 2) x.traits) b x s.bufs.length len) := by
   have hlt := State.handle_lt hh
   have blt := State.buf?_lt hb
@@ -794,7 +794,7 @@ theorem detach_move {s : State} (inv : Inv s) {h b : Nat} {x : Buf} (hh : s.hand
     (by rw [← hz]; show min x.used len % esize x.traits = 0
         have := inv.aligned b x hb
         rw [Nat.min_def]; split <;> assumption)
-  refine ⟨ret.1, by rw [← hs2]; simp, ret.2.2.2, ret.2.1, z, ?_, by rw [← hz]; rfl, ?_, ?_, by rw [← hz]; rfl, len, nlen, zc⟩
+  refine ⟨ret.1, by rw [← hs2]; simp, ret.2.2.2, ret.2.1, z, ?_, by rw [← hz]; rfl, ?_, ?_, by rw [← hz]; rfl, len, nlen, zc, fun c => ⟨trunc c, by omega⟩⟩
   · rw [State.buf?_setHandle, State.buf?_freeBuf _ _ _ (by simp; omega), State.buf?_setBuf _ _ _ _ (by omega)]
     simp [nbne]
   · rw [← hz]; exact fresh_not_immutable _ _ _ _ _
@@ -822,7 +822,7 @@ theorem detach_sem {s : State} (inv : Inv s) {h b : Nat} {x : Buf} (hh : s.handl
       rename_i c
       show DetachPost s h x n (s.setHandle h (some b)) b
       rw [setHandle_self hh]
-      refine ⟨inv, rfl, fun _ _ => rfl, hh, x, hb, by omega, by simpa using c.2.2, by omega, rfl, max n x.used, by omega, ?_⟩
+      refine ⟨inv, rfl, fun _ _ => rfl, hh, x, hb, by omega, by simpa using c.2.2, by omega, rfl, max n x.used, by omega, ?_, fun c => by omega⟩
       rw [List.take_of_length_le]
       rw [content_length x hu]; omega
     · split
@@ -852,6 +852,12 @@ theorem detach_sem {s : State} (inv : Inv s) {h b : Nat} {x : Buf} (hh : s.handl
         · -- unique: move
           rename_i uniq
           exact detach_move inv hh hb uniq n len nlen (by rw [← hlen]; exact roundUp_mod n _ sz0ne)
+            (by
+              intro c
+              have : ¬ (x.ref < 2 ∧ len ≤ x.size ∧ ¬ x.immutable = true) := notinplace
+              apply Decidable.byContradiction
+              intro ni
+              exact this ⟨by omega, by simp only [Buf.size] at hu ⊢; omega, ni⟩)
 
 
 end Mpt.Heap
